@@ -9,8 +9,8 @@ import Verif.Model.Token
        hosts=<xname:v6:parses:xnorm:xstripped,…>
        provs=<ty:xname:xkid:xclient:xissuer:xidEsc:init:sshEnabled:disableRenewal:renewAfterExpiry,…>
        parsed=0|1 kid= iss= sub= aud=<xraw:xstripped,…> exp=<s|!> nbf= iat= azp= tid= email= lbt=0|1
-       frag= fragesc= hasssh=0|1 sshtype=0|1 pop=<!|after:before:host:user:serialIsSub> cr=<7 bits,…>
-     -> ok[:x<provisioner name>] | reject | crash
+       frag= fragesc= hasssh=0|1 sshtype=0|1 nebssh=0|1 pop=<!|after:before:host:user:serialIsSub> cr=<8 bits,…>
+     -> ok:x<name of the answering provisioner> | reject | crash
   aud hosts=<…> frag=<!|xescaped>
      -> the seven rendered lists (`xraw|xstripped` items, lists joined by `;`)
   handler name=<Go function name>
@@ -65,7 +65,7 @@ def taud? (t : String) : Option TAud :=
 
 def cr? (t : String) : Option Cr :=
   match t.toList.map (· == '1') with
-  | [a, b, c, d, e, f, g] => some ⟨a, b, c, d, e, f, g⟩
+  | [a, b, c, d, e, f, g, h] => some ⟨a, b, c, d, e, f, g, h⟩
   | _ => none
 
 def pop? (t : String) : Option (Option Pop) :=
@@ -79,11 +79,6 @@ def kvs (line : String) : List (String × String) :=
     match f.splitOn "=" with
     | [k, v] => some (k, v)
     | _ => none
-
-def named (op : Op) : Bool :=
-  match op with
-  | .sign | .sshSign | .sshRekey => true
-  | _ => false
 
 def evalAuth (kv : List (String × String)) : Option String := do
   let op ← op? (← lookup kv "op")
@@ -111,15 +106,14 @@ def evalAuth (kv : List (String × String)) : Option String := do
     fragEsc := (← str? (← lookup kv "fragesc"))
     hasSSH := (← bool? (← lookup kv "hasssh"))
     sshTypeOk := (← bool? (← lookup kv "sshtype"))
+    nebSshOk := (← bool? (← lookup kv "nebssh"))
     pop := (← pop? (← lookup kv "pop"))
     cr := (← list? cr? (← lookup kv "cr")) }
   match authorize cfg now op tok with
   | .ok i =>
-    if named op then
-      match cfg.provs[i]? with
-      | some p => pure ("ok:x" ++ hex p.name)
-      | none => pure "ok:?"
-    else pure "ok"
+    match cfg.provs[i]? with
+    | some p => pure ("ok:x" ++ hex p.name)
+    | none => pure "ok:?"
   | .reject _ => pure "reject"
   | .crash => pure "crash"
 
